@@ -3,6 +3,7 @@ from collections import Counter
 
 import build
 import logrun
+import mtindep
 import verdict
 
 
@@ -15,6 +16,9 @@ def main(prop, rule, tier, replay):
     if replay:
         with open(replay) as fh:
             c = json.load(fh)["case"]
+        if c.get("phase") == "concurrent-independent-use":
+            mtindep.replay(run_, c, stats)
+            return run_.finish(10, 1, rule)
         seeds = [c["program_seed"]]
     else:
         n = 2 if tier == "quick" else 24
@@ -29,6 +33,10 @@ def main(prop, rule, tier, replay):
         stats["program-runs-under-memcheck"] = len(extra)
         results = results + extra
     logrun.evaluate(prop, run_, results, stats)
+    if not replay:
+        # statements of one logger type issued by 2-16 threads at once, each thread with its own capture buffer:
+        # what a thread's statements deliver (and how often its callables run) equals the serial result
+        mtindep.phase(run_, "log", tier, stats)
     run_.coverage["counters"] = dict(stats)
     run_.coverage["programs"] = len(seeds)
     run_.coverage["compilations"] = len(results)
